@@ -48,6 +48,54 @@ CHECKS = [
   "design_ref": "DESIGN.md §5 C09",
   "note": _TB + "regex semantics is the regex crate's (oracle, not modelled); start-state ids/exclusive flags are read from Debug output.",
   "technique": "Coq proof (mirror of the scan loop meets a declarative spec, induction over the input) + differential correspondence with a regex-crate match table"},
+ {"id": "C11",
+  "text": "Coq theorems about a function-by-function mirror of the lex-spec parser (LexParser, unescape, trim_end_unescaped, the header "
+          "slicing of from_str) for ALL texts: the escape rewriting equals a declarative map_escapes, the parser is total (never panics, "
+          "fuel |src|+2 suffices), an error result is non-empty, and every name/start-state span indexes the text the user wrote "
+          "(spans_index_source; the pinned code is refuted by C11_spans_index_source_refuted / C11_target_span_refuted and was repaired). "
+          "Tie: impl vs mirror transcripts on generated, mutated and truncated specs; an abstract-spec oracle (rules in order, names, "
+          "start states, targets, span texts), regex equivalence through the regex crate on string batteries, flag probes.",
+  "design_ref": "DESIGN.md §5 C11, §A.3",
+  "note": _TB + "the %grmtools header end position and regex compilability are inputs of the mirror (header parser: C12; regex crate: oracle).",
+  "technique": "Coq proof on a mirror of the lex parser (escape rewriting = spec, totality, span indexing) + abstract-spec oracle + impl/mirror differential"},
+ {"id": "C12",
+  "text": "Coq theorems about a mirror of the %grmtools section parser for ALL strings: total with fuel 2|src|+4, never panics, a value or a "
+          "non-empty error list, every span well-formed on char boundaries (the pinned code is refuted: C12_header_total_refuted, "
+          "C12_header_orig_diverges, C12_header_orig_panics; repaired). The yacc and lex parsers' totality is carried by the C10/C11 mirrors' "
+          "theorems (lex: C11_lex_parse_total) and by mass differential: ~32k (quick) near-valid strings per run through all three real "
+          "parsers under catch_unwind and a watchdog, every error/warning span checked against is_char_boundary.",
+  "design_ref": "DESIGN.md §5 C12, §5E",
+  "note": _TB + "for the yacc parser the totality claim rests on execution (and on the C10 mirror tie), not on a closed Coq theorem: partial.",
+  "technique": "Coq proof (header parser mirror total, spans well-formed) + impl/mirror differential + panic/hang/bad-span oracle on mutated specifications"},
+ {"id": "C15",
+  "text": "Coq permutation theorems on mirrors whose hash-iteration orders are explicit parameters: Eco implicit-token numbering (pinned code "
+          "refuted and shown order-sensitive for every list of >= 2 tokens; repaired variant order-insensitive), avoid_insert bits, Pager gc "
+          "(reachable set and renumbering independent of the pop schedule), one StateTable row (cells/gotos equal, conflict lists "
+          "Permutation-equal; sorted = literally equal), and an abstract OnceLock (every thread observes f ()). Tie: the harness runs as 8 "
+          "(16) separate processes per grammar and digests of every grammar/graph/table query and generated module bytes must coincide; "
+          "8 threads first-use a OnceLock-guarded reconstitution.",
+  "design_ref": "DESIGN.md §5 C15",
+  "note": _TB + "hash seeds and thread interleavings are sampled on the implementation (quantified in the model); OnceLock model is an assumption about std.",
+  "technique": "Coq proof (order-insensitivity by Permutation induction; schedule induction for OnceLock) + cross-process digest differential"},
+ {"id": "C17",
+  "text": "Coq theorems: the reference nullable/FIRST/FOLLOW/reachability analyses are exact for ALL grammars (iff with declarative "
+          "definitions over sentential forms) and total; verified certificate checkers decide true minimum/maximum/unbounded sentence costs "
+          "(C17_certified_costs_exact); the mirrored min-cost iteration provably diverges on a productive derivation cycle. Tie: the "
+          "implementation's firsts/follows/has_path/min/max costs/min_sentence(s) are compared bit for bit with the proved-exact references "
+          "and certified costs on generated grammars (Earley check of generated sentences).",
+  "design_ref": "DESIGN.md §5 C17",
+  "note": _TB + "cost search code is unverified, only its certificate checkers are; FOLLOW is strict/textbook-bracketed when rules are unreachable.",
+  "technique": "Coq proof (reference analyses exact; verified cost certificates) + exact differential against the implementation"},
+ {"id": "C18",
+  "text": "Coq theorems by induction over ALL operation histories (edits, option changes, broken sources, builds) on a mirror of both "
+          "builders' regeneration decisions: a successful build leaves exactly the outputs of a clean build, regenerated() iff the "
+          "configuration changed since the last parser-successful build, an immediate rebuild is a no-op, which setting escapes the cache "
+          "string (StorageT; refuted, repaired), a failed build leaves nothing stale (refuted for the pinned code, proved for the repaired "
+          "variant). Tie: random and targeted histories replayed against the real CTLexerBuilder/CTParserBuilder, one process per build, "
+          "explicit mtimes, each step compared with the mirror and with a clean build.",
+  "design_ref": "DESIGN.md §5 C18",
+  "note": _TB + "file contents are abstract descriptors in the model (bijection with bytes checked per run); mtimes are set by the harness.",
+  "technique": "Coq proof (invariant over build histories on a mirror of the builders) + history replay differential against the real builders"},
 ]
 
 _PENDING = "check not built yet in this round (work in progress; see DESIGN.md §10 build order)"
